@@ -2,6 +2,7 @@ import Bolt.Driver.Meta
 import Bolt.Driver.FL
 import Bolt.Driver.Api
 import Bolt.Driver.Store
+import Bolt.Driver.Grow
 open Bolt.Driver
 
 def main (args : List String) : IO UInt32 := do
@@ -10,6 +11,7 @@ def main (args : List String) : IO UInt32 := do
   | ["fl"] => cmdFL; return 0
   | ["api"] => cmdApi false; return 0
   | ["store"] => cmdStore; return 0
+  | ["grow"] => cmdGrow; return 0
   | ["api-verbose"] => cmdApi true; return 0
   | ["decode", path, os] => cmdDecode path (parseNat os) false; return 0
   | ["decode-verbose", path, os] => cmdDecode path (parseNat os) true; return 0
